@@ -289,12 +289,6 @@ theorem VM.neBool {v : LuaValue N} {c : Bool} (h : VM v (.bool c)) :
     VM (match v with | .true_ => .false_ | .false_ => .true_ | _ => (.unknown : LuaValue N)) (.bool (!c)) := by
   cases v <;> simp only [VM] at h ⊢ <;> (try trivial) <;> cases h <;> rfl
 
-/-- the local condition of `h8` at a binary node -/
-def localOK (op : BinOp) (vl vr : LuaValue N) : Bool :=
-  match op with
-  | .concat => concatOK E vl vr
-  | _ => true
-
 theorem eq_prep {vl vr : LuaValue N} {a b : Val N} {σ : State N} (hl : VM vl a) (hr : VM vr b)
     (hmeta : vl = .table → vr = .table → σ.metaOf a = none ∧ σ.metaOf b = none ∧ a ≠ b) :
     (isUnknown vl = true ∨ isUnknown vr = true) ∨
@@ -310,7 +304,6 @@ theorem eq_prep {vl vr : LuaValue N} {a b : Val N} {σ : State N} (hl : VM vl a)
 
 theorem binop_value_sound (A : Agree N E) {op : BinOp} (h1 : op ≠ .and) (h2 : op ≠ .or)
     {vl vr : LuaValue N} {a b w : Val N} {σ σ' : State N} (hl : VM vl a) (hr : VM vr b)
-    (hlocal : localOK E op vl vr = true)
     (hmeta : (op = .eq ∨ op = .ne) → vl = .table → vr = .table → σ.metaOf a = none ∧ σ.metaOf b = none ∧ a ≠ b)
     (hfn : (op = .eq ∨ op = .ne) → vl = .function → vr = .function → a ≠ b)
     (h : binopVal call ρ k op a b σ = .ok w σ') : VM (evaluateBinary E op vl vr) w := by
@@ -329,7 +322,7 @@ theorem binop_value_sound (A : Agree N E) {op : BinOp} (h1 : op ≠ .and) (h2 : 
     · rw [binopVal_ne hm] at h
       cases h
       exact (evaluateEqual_sound hl hr (fun x y => (hmeta (Or.inr rfl) x y).2.2) (hfn (Or.inr rfl))).neBool
-  case concat => exact evaluateConcat_sound hl hr hlocal h
+  case concat => exact evaluateConcat_sound A hl hr h
   case lt => exact evaluateRelational_sound (Or.inl rfl) hl hr h
   case le => exact evaluateRelational_sound (Or.inr (Or.inl rfl)) hl hr h
   case gt => exact evaluateRelational_sound (Or.inr (Or.inr (Or.inl rfl))) hl hr h
@@ -337,12 +330,10 @@ theorem binop_value_sound (A : Agree N E) {op : BinOp} (h1 : op ≠ .and) (h2 : 
   all_goals exact evaluateMath_sound A rfl hl hr h
 
 theorem h8_binop {op : BinOp} {l r : Expr} (h : h8 E (.bin op l r) = true) :
-    h8 E l = true ∧ h8 E r = true ∧
-    localOK E op (evaluate E l) (evaluate E r) = true ∧
+    h8 E l = true ∧ h8 E r = true ∧ True ∧
     ((op = .eq ∨ op = .ne) → refEqOK E l r = true) := by
   simp only [h8, Bool.and_eq_true] at h
-  refine ⟨h.1.1, h.1.2, ?_, ?_⟩
-  · cases op <;> simp_all [localOK]
+  refine ⟨h.1.1, h.1.2, trivial, ?_⟩
   · intro hop
     rcases hop with rfl | rfl <;> simp_all
 
@@ -379,11 +370,11 @@ theorem good_binop (A : Agree N E) {op : BinOp} (h1 : op ≠ .and) (h2 : op ≠ 
   obtain ⟨b, σ2, e2, hr⟩ := bind_ok hr
   obtain ⟨w, σ3, e3, hr⟩ := bind_ok hr
   cases hr
-  obtain ⟨h8l, h8r, hlocal, href⟩ := h8_binop E h8e
+  obtain ⟨h8l, h8r, _, href⟩ := h8_binop E h8e
   obtain ⟨sl, xl⟩ := ihl σ σ1 a h8l e1
   obtain ⟨sr, xr⟩ := ihr σ1 σ2 b h8r e2
   simp only [evaluate]
-  refine ⟨Sound.of_vm (binop_value_sound E call ρ k A h1 h2 sl.vm sr.vm hlocal ?_ ?_ e3), fun hp => ?_⟩
+  refine ⟨Sound.of_vm (binop_value_sound E call ρ k A h1 h2 sl.vm sr.vm ?_ ?_ e3), fun hp => ?_⟩
   · intro hop hvl hvr
     obtain ⟨pl, pr⟩ := refEq_pure E (href hop) (Or.inl ⟨hvl, hvr⟩)
     have fl := (xl pl).fresh
